@@ -117,12 +117,10 @@ func (p *Prog) JS() string {
 	case "fresh":
 		sb.WriteString("return {\"fresh\": true};\n")
 	case "nan":
-		if len(p.Ops)%2 == 0 {
-			sb.WriteString("bs[\"bad\"] = 0/0;\nreturn bs;\n")
-		} else {
-			// bindings that contain themselves
-			sb.WriteString("var r = {\"count\": 1}; r.me = {\"again\": r};\nreturn r;\n")
-		}
+		sb.WriteString("bs[\"bad\"] = 0/0;\nreturn bs;\n")
+	case "cyclic":
+		// bindings that contain themselves
+		sb.WriteString("var r = {\"count\": 1}; r.me = {\"again\": r};\nreturn r;\n")
 	default:
 		sb.WriteString("return bs;\n")
 	}
@@ -248,7 +246,7 @@ func (g *G) Action(guard bool, mode string) *Prog {
 			}
 		default:
 			f = nil
-			p.Ret = g.PickS("scalar", "array", "null", "nan")
+			p.Ret = g.PickS("scalar", "array", "null", "nan", "cyclic")
 		}
 		if f != nil {
 			at := g.Intn(len(p.Ops) + 1)
